@@ -1836,3 +1836,7 @@ def structure(spec):
     if s['mode'] == 'pam':
         body += [[[m['n_par'], m['ems'], m['ds']['n_chain'], m['ds']['n_draw'], len(m['ds']['ids'])] for m in s['models']]]
     return body
+
+
+RULE += (' Classes and clauses added in later rounds of the seeded-change protocol (DESIGN 9.4) are named in REQUIRED '
+         'and in seeded/HISTORY.json; the evidence counts every one of them under classes.')
